@@ -368,7 +368,7 @@ def Loop.iter (l : Loop) : Nat → Loop
 /-- `get_next_action` eventually answers `None` -/
 def Loop.Terminates (l : Loop) : Prop := ∃ n, (l.iter n).running = false
 
-theorem running_iff (l : Loop) : l.running = true ↔ (if l.from_ < l.to then l.i < l.to else l.i > l.to) := by
+theorem running_iff (l : Loop) : l.running = true ↔ ((if l.from_ < l.to then l.i < l.to else l.i > l.to) ∧ l.step ≠ 0) := by
   unfold Loop.running
   split <;> simp
 
